@@ -202,6 +202,12 @@ theorem block_declarations_do_not_leak (n : Nat) (s : Stmt F) (st : St F)
     (execS ops ext prog n s st).st.locals.map keys = st.locals.map keys :=
   if_while_declare_nothing_outside ops ext prog n s st hs
 
+/-- the same for every kind of `for` statement: the loop variable and what the body declares are gone
+after the loop, on every exit path -/
+theorem for_declarations_do_not_leak (n : Nat) (lv : Option Str) (lvTy : Ty) (range : ForRange F) (body : List (Stmt F)) (st : St F) :
+    (execS ops ext prog n (.forS lv lvTy range body) st).st.locals.map keys = st.locals.map keys :=
+  for_declares_nothing_outside ops ext prog n lv lvTy range body st
+
 /-- and in general (any statement list): outer scopes keep exactly their names, the innermost scope
 keeps its names in order and may gain the ones declared at this level -/
 theorem names_only_added_at_this_level (n : Nat) (b : List (Stmt F)) (st : St F) :
